@@ -488,6 +488,51 @@ def expr_instances(rng, dtype, batch, n):
     return out
 
 
+# ----------------------------------------------------------------------------- heterogeneous spectra (stochastic path)
+
+
+def hetero_instances(rng, dtype):
+    """Batches whose members have HETEROGENEOUS spectra: a member whose Krylov space is exhausted after 1-3 steps (scaled
+    identity, two distinct eigenvalues, a block of repeated eigenvalues) next to a generic member, in both orders.  The
+    stochastic estimate of every member must be the quadrature of ITS OWN full Krylov dimension (theorem `slq_full_dimension`),
+    whatever happens to the other members of the batch."""
+    from linear_operator.operators import (AddedDiagLinearOperator, ConstantMulLinearOperator, DenseLinearOperator, DiagLinearOperator,
+                                           SumLinearOperator)
+    Inst, ri, psd_int = catalogue.Inst, catalogue.ri, catalogue.psd_int
+    n = 5
+    eye = torch.eye(n, dtype=dtype)
+    gen = lambda: psd_int(rng, (), n, dtype)
+    cI = lambda: rng.randint(2, 4) * eye
+    def two():  # a I + v v^T: eigenvalues a (n-1 times) and a + |v|^2
+        v = ri(rng, (n, 1), 1, 2, dtype)
+        return rng.randint(1, 3) * eye + v @ v.mT
+    def rep_block():  # 3 repeated eigenvalues + a generic 2x2 block
+        m = torch.zeros(n, n, dtype=dtype)
+        m[:3, :3] = rng.randint(2, 4) * torch.eye(3, dtype=dtype)
+        m[3:, 3:] = psd_int(rng, (), 2, dtype)
+        return m
+    combos = {
+        "cI,gen": [cI(), gen()], "gen,cI": [gen(), cI()], "two,gen": [two(), gen()], "gen,two": [gen(), two()],
+        "rep,gen": [rep_block(), gen()], "gen,rep,cI": [gen(), rep_block(), cI()], "cI,two,gen": [cI(), two(), gen()],
+        "2x2[gen,cI;two,gen]": [gen(), cI(), two(), gen()],
+    }
+    out = []
+    for name, mats in combos.items():
+        A = torch.stack(mats)
+        if name.startswith("2x2"):
+            A = A.reshape(2, 2, n, n)
+        out.append(Inst(f"het:Dense[{name}]", lambda c, A=A: (lambda t: (DenseLinearOperator(t), A, [t]))(c(A)), True))
+    A = torch.stack([cI(), gen()])
+    B = torch.stack([gen(), two()])
+    d = torch.stack([2 * torch.ones(n, dtype=dtype), ri(rng, (n,), 1, 3, dtype)])
+    # member 0 of the sum is a scaled identity only when both parts are
+    out.append(Inst("het:AddedDiag[cI+cI,gen+diag]", lambda c, A=A, d=d: (lambda s, t: (AddedDiagLinearOperator(DenseLinearOperator(s), DiagLinearOperator(t)), A + torch.diag_embed(d), [s, t]))(c(A), c(d)), True))
+    out.append(Inst("het:Sum[gen+two,two+gen]", lambda c, A=B, B2=B.flip(0).contiguous(): (lambda s, t: (SumLinearOperator(DenseLinearOperator(s), DenseLinearOperator(t)), A + B2, [s, t]))(c(A), c(B2)), True))
+    k = torch.tensor([2.0, 3.0], dtype=dtype)
+    out.append(Inst("het:ConstantMul[cI,gen]", lambda c, A=A, k=k: (lambda s, t: (ConstantMulLinearOperator(DenseLinearOperator(s), t), A * k.unsqueeze(-1).unsqueeze(-1), [s, t]))(c(A), c(k)), True))
+    return out
+
+
 # ----------------------------------------------------------------------------- configurations
 
 CONFIGS = {
@@ -590,6 +635,10 @@ class State:
         dtypes = [torch.float64, torch.float32]
         batches = [(), (2,)] if quick else [(), (2,), (1,), (2, 3)]
         wrap_kinds = ["AddedDiag", "BatchRepeat", "BlockDiag", "BlockInterleaved", "SumBatch"]
+        for it in hetero_instances(rng, torch.float64):
+            self.instance(it, torch.float64, tuple(it.shape[:-2]), it.shape[-1], force_cfgs=["slq", "slq[m=1]", "slq[chol=n-1]", "slq+cached-root"]
+                          + (["slq+precond"] if "AddedDiag" in it.name else []))
+        self.patched_probe_cells()
         for dtype in dtypes:
             for batch in batches:
                 sizes = [3] if (quick or dtype == torch.float32) else [3, 4]
@@ -636,7 +685,7 @@ class State:
             names += stoch_cfgs
         return names
 
-    def instance(self, it, dtype, batch, n):
+    def instance(self, it, dtype, batch, n, force_cfgs=None):
         chk = self.chk
         quick = chk.tier == "quick"
         A = it.dense.double()
@@ -649,7 +698,7 @@ class State:
                 "mat": torch.randint(-3, 4, (*obatch, N, 2), generator=g).to(dtype),
                 "mat1": torch.randint(-3, 4, (*obatch, N, 1), generator=g).to(dtype),
                 "vec": torch.randint(-3, 4, (N,), generator=g).to(dtype)}
-        for cname in self.configs_for(it, dtype, batch, n, quick):
+        for cname in (force_cfgs or self.configs_for(it, dtype, batch, n, quick)):
             cfg = CONFIGS[cname]
             for rk in rhs_kinds:
                 if rk == "vec" and cname not in ("default", "slq"):
@@ -664,6 +713,67 @@ class State:
                     if self.only and self.only != cell:
                         continue
                     self.one(cell, it, orc, dtype, obatch, N, cname, cfg, rk, rhss[rk], red, lg)
+
+    def patched_probe_cells(self):
+        """Non-batch operator, probes supplied through `_probe_vectors_and_norms`: ONE probe column is an eigenvector of A (its
+        Krylov space is exhausted after one step), the others are generic.  Every probe's quadrature node must still be that of
+        its own full Krylov dimension: estimate = (n/m) sum_i z_i^T log(A) z_i for budget >= n."""
+        from linear_operator.operators import AddedDiagLinearOperator, DenseLinearOperator, DiagLinearOperator
+        chk, settings = self.chk, self.settings
+        n = 5
+        for kind in ("Dense", "AddedDiag"):
+            for where in ("first", "last", "two-of-three", "only"):
+                for with_rhs in (False, True):
+                    cell = f"C05/probe-eigvec:{kind}[n={n}]/slq/eig={where}/rhs={'mat' if with_rhs else 'none'}"
+                    if self.only and self.only != cell:
+                        continue
+                    crng = random.Random(f"C05:{chk.seed}:{cell}")
+                    payload = {"cell": cell, "seed": chk.seed, "tier": chk.tier}
+                    A = catalogue.psd_int(crng, (), n, torch.float64)
+                    dvec = catalogue.ri(crng, (n,), 1, 3, torch.float64)
+                    dense = A + torch.diag_embed(dvec) if kind == "AddedDiag" else A
+                    w, Q = np.linalg.eigh(dense.numpy())
+                    g = torch.Generator().manual_seed(crng.randrange(2 ** 31))
+                    cols = {"first": ["e", "g", "g"], "last": ["g", "g", "e"], "two-of-three": ["e", "g", "e2"], "only": ["e"]}[where]
+                    pv = []
+                    for cdesc in cols:
+                        if cdesc == "g":
+                            v = torch.randn(n, generator=g, dtype=torch.float64)
+                        else:
+                            v = torch.tensor(Q[:, crng.randrange(n) if cdesc == "e" else 0].copy())
+                        pv.append(v / v.norm())
+                    pv = torch.stack(pv, -1)
+                    norms = torch.ones(1, pv.shape[-1], dtype=torch.float64)
+                    chk.case(cell + f"|{chk.seed}")
+                    chk.count("cfg:probe-eigvec")
+                    t = dense.clone().requires_grad_(True) if kind == "Dense" else A.clone().requires_grad_(True)
+                    op = DenseLinearOperator(t) if kind == "Dense" else AddedDiagLinearOperator(DenseLinearOperator(t), DiagLinearOperator(dvec.clone()))
+                    op._probe_vectors_and_norms = lambda pv=pv, norms=norms: (pv.clone(), norms.clone())
+                    R = torch.randint(-3, 4, (n, 2), generator=g).double() if with_rhs else None
+                    budget = crng.choice([n, n + 3, 20])
+                    try:
+                        with settings.max_cholesky_size(0), settings.max_preconditioner_size(0), settings.max_lanczos_quadrature_iterations(budget), \
+                                settings.cg_tolerance(1e-3), settings.max_cg_iterations(200):
+                            iq, ld = op.inv_quad_logdet(R, logdet=True)
+                    except Exception as e:
+                        chk.violation(cell + "/exception=" + exc_tag(e), f"inv_quad_logdet raised {type(e).__name__}: {str(e)[:160]}", payload)
+                        continue
+                    node = find_slq_node(iq, ld)
+                    if node is None or not torch.equal(node.probe_vectors, pv):
+                        chk.violation(cell + "/probes", "the supplied probe vectors were not used (no stochastic node, or different probes recorded)", payload)
+                        continue
+                    want = slq_expected(dense, pv, None, budget)
+                    if not close(ld.detach(), want, 1e-6):
+                        chk.violation(cell + "/slq", f"stochastic logdet {float(ld)} is not the Gauss-Lanczos quadrature {float(want)} of the supplied probes "
+                                      f"(columns {cols}, budget {budget} >= n={n}): a probe with an exhausted Krylov space must not truncate the others", payload)
+                        continue
+                    if R is not None:
+                        wantq = (R * torch.linalg.solve(dense, R)).sum()
+                        if not close(iq.detach(), wantq, 1e-5):
+                            chk.violation(cell + "/invquad", f"inv_quad {float(iq)} vs dense {float(wantq)}", payload)
+                            continue
+                    chk.traces_validated += 1
+                    chk.count("slq_quadrature_checked")
 
     # ------------------------------------------------------------------ one case
     def one(self, cell, it, orc, dtype, batch, N, cname, cfg, rk, R, red, lg):
